@@ -6,7 +6,12 @@
 #define VERIF_LOGGING_PASS2
 #include "contracts/logging.h"
 
-void *verif_keep_c14_channel[] = {(void *)vt_write_contract, (void *)bg_push_back_contract, (void *)bg_list_clean_up_contract};
+void *verif_keep_c14_channel[] = {(void *)vt_write_contract, (void *)bg_push_back_contract, (void *)bg_list_clean_up_contract,
+                                  (void *)bgt_write_contract, (void *)bgt_lock_contract, (void *)bgt_unlock_contract,
+                                  (void *)bgt_wait_pred_contract, (void *)bgt_init_dynamic_contract, (void *)bgt_length_contract,
+                                  (void *)bgt_swap_contract, (void *)bgt_get_at_contract, (void *)bgt_clear_contract,
+                                  (void *)bgt_pop_front_n_contract, (void *)bgt_local_clean_up_contract,
+                                  (void *)bgt_string_destroy_contract, (void *)bgt_fatal_assert_contract};
 
 void h_foreground_send(void) {
     struct aws_log_channel *channel; struct aws_string *line;
@@ -35,4 +40,27 @@ void h_background_clean_up(void) {
     g_mutex = nondet_ptr(); g_signal = nondet_ptr(); g_pending = nondet_ptr(); g_thread = nondet_ptr(); g_finished_flag = nondet_ptr();
     s_background_channel_clean_up(channel);
     CANARY("returned");
+}
+
+/* Body of the background thread (contract: contracts/logging.h pass 2).  g_wseq / g_wline stay unconstrained: the
+ * per-call preconditions of the write / destroy contracts are checked for an arbitrary line.
+ * VERIF_BGT_LINES (bounded unit only): at most that many lines are ever accepted and from the VERIF_BGT_SYNCS-th
+ * synchronisation point on `finished` is set and nothing arrives any more. */
+void h_background_thread(void) {
+    void *thread_data;
+    FMT_GHOST_RESET();
+    CH_GHOST_RESET();
+    BGT_GHOST_RESET();
+    g_mutex = nondet_ptr(); g_signal = nondet_ptr(); g_pending = nondet_ptr(); g_finished_flag = nondet_ptr();
+    g_bgt_writer = nondet_ptr();
+    g_wseq = nondet_size_t(); g_wline = nondet_ptr();
+#ifdef VERIF_BGT_LINES
+    g_bgt_bounded = true; g_bgt_max_lines = VERIF_BGT_LINES; g_bgt_max_syncs = VERIF_BGT_SYNCS;
+#endif
+    aws_background_logger_thread(thread_data);
+    CANARY("returned");
+    if (g_accepted == 0) CANARY("returned without ever seeing a line");
+    if (g_accepted > 32 && g_wseq == 32) CANARY("more than 32 lines drained, witness is the 33rd");
+    if (g_sync_calls > 4) CANARY("more than two wake-ups");
+    if (g_sync_calls == 2 && g_accepted > 0) CANARY("finished seen together with pending lines at the first wake-up");
 }
